@@ -420,6 +420,9 @@ class LM:
             vals = {}
             for p in PRMS[dist]:
                 vals[p] = np.array([1.0 + 5 * rng.random() for _ in range(int(np.prod(shape)))]).reshape(shape)
+                if dist == "Fixed" and rng.random() < 0.6:
+                    # lifetimes on the half-year grid: some ages equal the lifetime exactly (the boundary of the step)
+                    vals[p] = np.round(vals[p] * 2) / 2
             W.inputs["prms"] = {k: v.tolist() for k, v in vals.items()}
             self.prm_arrays = vals
             lm = cls(dims=DimensionSet(dim_list=self.dims), time_letter="t", inflow_at=inflow_at, n_pts_per_interval=npts, **vals)
